@@ -58,6 +58,10 @@ def type_of(v):
         return ('option', v[1])
     if k == 'list':
         return ('list', v[1])
+    if k == 'bool':
+        return 'bool'
+    if k in ('map', 'big_map'):
+        return (k, v[1])
     raise lib.InternalError(f'bad value {v!r}')
 
 
@@ -95,6 +99,9 @@ def tickets_in(v):
         yield from tickets_in(v[1])
     elif k == 'list':
         for x in v[2]:
+            yield from tickets_in(x)
+    elif k in ('map', 'big_map'):
+        for _, x in v[2]:
             yield from tickets_in(x)
 
 
@@ -236,13 +243,45 @@ class RefMachine:
             elif l[0] == 'pair':       # pytezos: no type assertion, a pair iterates over its two components
                 items = [l[1], l[2]]
                 self.lenient = True
+            elif l[0] == 'map':
+                items = [('pair', ('nat', kk), vv) for kk, vv in l[2]]
+            elif l[0] == 'big_map':
+                raise Outside()
             else:
                 raise Stuck('not iterable')
             for x in items:
                 self.stack.insert(0, x)
                 self.run(i[1])
+        elif op == 'EMPTY_MAP':
+            s.insert(0, ('big_map' if i[1] else 'map', i[2], []))
+        elif op in ('UPDATE', 'GET_AND_UPDATE'):
+            k, o, m = self.pop(3)
+            if k[0] != 'nat' or o[0] not in ('some', 'none') or m[0] not in ('map', 'big_map'):
+                raise Stuck('map update operands')
+            if o[0] == 'some' and type_of(o[1]) != m[1]:
+                raise Outside()          # ill-typed Michelson: pytezos does not check the value type (observation in docs/C20.md)
+            old = dict(m[2]).get(k[1])
+            ents = [(kk, vv) for kk, vv in m[2] if kk != k[1]]
+            if o[0] == 'some':
+                ents = sorted(ents + [(k[1], o[1])], key=lambda e: e[0])
+            self.stack.insert(0, (m[0], m[1], ents))
+            if op == 'GET_AND_UPDATE':
+                self.stack.insert(0, ('none', m[1]) if old is None else ('some', old))
+        elif op in ('MEM', 'GET'):
+            k, m = self.pop(2)
+            if k[0] != 'nat' or m[0] not in ('map', 'big_map'):
+                raise Stuck('map lookup operands')
+            old = dict(m[2]).get(k[1])
+            if op == 'MEM':
+                self.stack.insert(0, ('bool', old is not None))
+            else:
+                if not duplicable(m[1]):
+                    raise Stuck('use GET_AND_UPDATE instead')
+                self.stack.insert(0, ('none', m[1]) if old is None else ('some', old))
         elif op == 'MAP':
             (l,) = self.pop(1)
+            if l[0] in ('map', 'big_map'):
+                raise Outside()
             if l[0] != 'list':
                 raise Stuck('MAP: not a list')       # a pair is iterated by pytezos but PairType.from_items does not exist
             items = []
@@ -286,6 +325,8 @@ def ref_run(addr, prog):
 def ty_text(t):
     if isinstance(t, str):
         return t
+    if t[0] in ('map', 'big_map'):
+        return f'({t[0]} nat {ty_text(t[1])})'
     return '(' + t[0] + ' ' + ' '.join(ty_text(x) for x in t[1:]) + ')'
 
 
@@ -297,6 +338,8 @@ def instr_text(i):
         return f'{op} {ty_text(i[1])}'
     if op in ('IF_NONE', 'IF_CONS'):
         return f'{op} {{ {prog_text(i[1])} }} {{ {prog_text(i[2])} }}'
+    if op == 'EMPTY_MAP':
+        return f'{"EMPTY_BIG_MAP" if i[1] else "EMPTY_MAP"} nat {ty_text(i[2])}'
     if op in ('ITER', 'MAP'):
         return f'{op} {{ {prog_text(i[1])} }}'
     if op == 'PUSH_NAT':
@@ -333,7 +376,9 @@ def coq_cval(c):
 
 def coq_ty(t):
     if isinstance(t, str):
-        return {'nat': 'TNat', 'string': 'TString', 'address': 'TAddress'}[t]
+        return {'nat': 'TNat', 'string': 'TString', 'address': 'TAddress', 'bool': 'TBool'}[t]
+    if t[0] in ('map', 'big_map'):
+        return f'(TMap {"true" if t[0] == "big_map" else "false"} {coq_ty(t[1])})'
     if t[0] == 'ticket':
         return f'(TTicket {coq_cty(t[1])})'
     if t[0] == 'pair':
@@ -377,6 +422,11 @@ def coq_val(v):
         return f'(VNone {coq_ty(v[1])})'
     if k == 'list':
         return f'(VList {coq_ty(v[1])} {clist(coq_val(x) for x in v[2])})'
+    if k == 'bool':
+        return f'(VBool {"true" if v[1] else "false"})'
+    if k in ('map', 'big_map'):
+        ents = clist(f'({cZ(kk)}, {coq_val(vv)})' for kk, vv in v[2])
+        return f'(VMap {"true" if k == "big_map" else "false"} {coq_ty(v[1])} {ents})'
     raise lib.InternalError(f'bad value {v!r}')
 
 
@@ -388,6 +438,8 @@ def coq_instr(i):
         return f'({op} {coq_ty(i[1])})'
     if op in ('IF_NONE', 'IF_CONS'):
         return f'({op} {coq_prog(i[1])} {coq_prog(i[2])})'
+    if op == 'EMPTY_MAP':
+        return f'(EMPTY_MAP {"true" if i[1] else "false"} {coq_ty(i[2])})'
     if op in ('ITER', 'MAP'):
         return f'({op} {coq_prog(i[1])})'
     if op == 'PUSH_NAT':
@@ -432,6 +484,10 @@ def canon_ty(e):
         return ('pair', canon_ty(e['args'][0]), canon_ty(e['args'][1]))
     if p in ('option', 'list'):
         return (p, canon_ty(e['args'][0]))
+    if p == 'bool':
+        return 'bool'
+    if p in ('map', 'big_map') and e['args'][0]['prim'] == 'nat':
+        return (p, canon_ty(e['args'][1]))
     raise ValueError(f'type outside the modelled domain: {p}')
 
 
@@ -446,6 +502,12 @@ def canon_item(x):
         if x.is_none():
             return ('none', canon_ty(type(x).as_micheline_expr()['args'][0]))
         return ('some', canon_item(x.get_some()))
+    if isinstance(x, T.MapType):     # also BigMapType (subclass); on-chain content is not part of this model
+        t = canon_ty(type(x).as_micheline_expr())
+        ents = sorted(((int(k), canon_item(v)) for k, v in x.items if v is not None), key=lambda e: e[0])
+        return (t[0], t[1], ents)
+    if x.prim == 'bool':
+        return ('bool', bool(x))
     if isinstance(x, T.ListType):
         return ('list', canon_ty(type(x).as_micheline_expr()['args'][0]), [canon_item(y) for y in x.items])
     if x.prim == 'address':
@@ -530,6 +592,8 @@ def random_instr(rng, depth=0):
         return ('PUSH_NAT', rng.choice(AMOUNTS))
     if k == 19:
         return ('PUSH_STR', rng.choice(STRS))
+    if k == 23:
+        return rng.choice([('UPDATE',), ('GET_AND_UPDATE',), ('MEM',), ('GET',), ('EMPTY_MAP', rng.random() < 0.5, rng.choice(SMALL_TYS[:6]))])
     if k == 22 and depth < 2:
         return (rng.choice(['ITER', 'MAP']), [random_instr(rng, depth + 1) for _ in range(rng.randrange(0, 3))])
     if k in (20, 21) and depth < 2:
@@ -598,6 +662,21 @@ def applicable(rng, m, depth):
         # whatever lies below (e.g. the other half of a split) stays alive and is compared at the end
         tail = rng.choice([[('PAIR',)], [('SWAP',), ('PAIR',)]]) + [('JOIN_TICKETS',)]
         out += [('SEQ', mint(top[2], rng.choice([1, 3, 5])) + tail)] * 5
+    if top and is_ticket(top) and rng.random() < 0.5:
+        # park the ticket in a map / big_map (a fresh one, or the one right below if it has the right value type)
+        k = rng.choice([0, 1, 2, 7])
+        if snd and snd[0] in ('map', 'big_map') and snd[1] == type_of(top):
+            out += [('SEQ', [('SOME',), ('PUSH_NAT', k), rng.choice([('UPDATE',), ('GET_AND_UPDATE',)])])] * 4
+        else:
+            out += [('SEQ', [('EMPTY_MAP', rng.random() < 0.5, type_of(top)), ('SWAP',), ('SOME',), ('PUSH_NAT', k), ('UPDATE',)])] * 3
+    if top and top[0] in ('map', 'big_map'):
+        keys = [kk for kk, _ in top[2]] or [0]
+        k = rng.choice(keys + [rng.choice([0, 1, 2, 7, 9])])
+        out += [('SEQ', [('NONE', top[1]), ('PUSH_NAT', k), ('GET_AND_UPDATE',)])] * 6
+        out += [('SEQ', [('NONE', top[1]), ('PUSH_NAT', k), ('UPDATE',)])] * 2
+        out += [('SEQ', [('PUSH_NAT', k), ('MEM',)]), ('SEQ', [('PUSH_NAT', k), ('GET',)]), ('DUP',)]
+        if top[0] == 'map' and depth < 3:
+            out += [('ITER',)] * 2
     if top and is_ticket(top):
         out += [('READ_TICKET',)] * 2 + [('SOME',), ('DROP',)]
         if snd and is_ticket(snd):
@@ -684,7 +763,7 @@ def gen_block(rng, m, n, depth, p_bad):
             i = ('MAP', body)
         if i[0] == 'ITER' and len(i) == 1:
             top = m.stack[0]
-            items = top[2] if top[0] == 'list' else [top[1], top[2]]
+            items = top[2] if top[0] == 'list' else ([('pair', ('nat', kk), vv) for kk, vv in top[2]] if top[0] == 'map' else [top[1], top[2]])
             if items:
                 probe = RefMachine(m.self)
                 probe.stack = [items[0]] + list(m.stack[1:])
@@ -800,6 +879,32 @@ def split_join_unit_cases(rng, addrs):
         out.append((a0, split + [('NIL', ('ticket', 'string')), ('SWAP',), ('CONS',), ('SWAP',)] + mint(A, 3) + [('SWAP',), ('PAIR',), ('JOIN_TICKETS',), some([])]))
         out.append((a0, split + [('SWAP',), ('SOME',), ('SWAP',)] + mint(A, 3) + [('SWAP',), ('PAIR',), ('JOIN_TICKETS',), some([]), ('SWAP',),
                                  ('IF_NONE', [], [('READ_TICKET',)])]))
+    # maps and big_maps holding tickets (the shapes of defect #50 and of the oracle-only stream, now inside the model)
+    TN = ('ticket', 'nat')
+    take = lambda k: [('NONE', TN), ('PUSH_NAT', k), ('GET_AND_UPDATE',)]  # noqa: E731
+    for big in (False, True):
+        store = [('EMPTY_MAP', big, TN)] + tk(5) + [('SOME',), ('PUSH_NAT', 0), ('UPDATE',)]
+        store2 = store + tk(3) + [('SOME',), ('PUSH_NAT', 1), ('UPDATE',)]
+        out.append((a0, store + [('DUP',)]))
+        out.append((a0, store + [('PUSH_NAT', 0), ('GET',)]))
+        out.append((a0, store + [('PUSH_NAT', 3), ('DUPN', 2)]))
+        out.append((a0, store + [('PUSH_NAT', 0), ('MEM',)]))
+        out.append((a0, store + [('DUP',), ('PUSH_NAT', 0), ('GET',), ('SWAP',), ('PUSH_NAT', 0), ('GET',)]))
+        out.append((a0, store + take(0)))
+        out.append((a0, store + take(0) + [('SWAP',)] + take(0)))
+        out.append((a0, store + take(0) + [('SWAP',)] + take(0) + [('IF_NONE', [], [('DIG', 2), ('IF_NONE', [('PUSH_NAT', 99)], [('PAIR',), ('JOIN_TICKETS',)])])]))
+        out.append((a0, store + take(1)))
+        out.append((a0, store + take(0) + [('PUSH_NAT', 0), ('GET_AND_UPDATE',), ('DROP',)] + take(0)))
+        out.append((a0, store + [('NONE', TN), ('PUSH_NAT', 0), ('UPDATE',)] + take(0)))
+        out.append((a0, store2 + take(1) + [('SWAP',)] + take(0) + [('IF_NONE', [], [('DIG', 2), ('IF_NONE', [('PUSH_NAT', 99)], [('PAIR',), ('JOIN_TICKETS',)])])]))
+        out.append((a0, store2 + tk(4) + [('SOME',), ('PUSH_NAT', 0), ('GET_AND_UPDATE',)]))
+        out.append((a0, store2 + tk(4) + [('SOME',), ('PUSH_NAT', 0), ('UPDATE',)]))
+        out.append((a0, [('EMPTY_MAP', big, 'nat'), ('PUSH_NAT', 5), ('SOME',), ('PUSH_NAT', 2), ('UPDATE',), ('DUP',), ('PUSH_NAT', 2), ('GET',), ('SWAP',), ('PUSH_NAT', 3), ('MEM',)]))
+        out.append((a0, [('EMPTY_MAP', big, ('option', TN))] + tk(2) + [('SOME',), ('SOME',), ('PUSH_NAT', 4), ('UPDATE',), ('PUSH_NAT', 4), ('GET',)]))
+        out.append((a0, [('EMPTY_MAP', big, ('list', TN)), ('DUP',)]))
+    out.append((a0, [('EMPTY_MAP', False, TN)] + tk(5) + [('SOME',), ('PUSH_NAT', 3), ('UPDATE',)] + tk(2) + [('SOME',), ('PUSH_NAT', 1), ('UPDATE',), ('ITER', [('CDR',), ('DROP',)])]))
+    out.append((a0, [('EMPTY_MAP', False, TN)] + tk(5) + [('SOME',), ('PUSH_NAT', 3), ('UPDATE',)] + tk(2) + [('SOME',), ('PUSH_NAT', 1), ('UPDATE',), ('ITER', [('UNPAIR',), ('DROP',)]), ('PAIR',), ('JOIN_TICKETS',)]))
+    out.append((a0, [('EMPTY_MAP', False, TN)] + tk(5) + [('SOME',), ('PUSH_NAT', 3), ('UPDATE',), ('ITER', [('DUP',)])]))
     out.append((a0, [('NIL', ('ticket', 'nat')), ('DUP',)]))
     out.append((a0, [('NONE', ('ticket', 'string')), ('DUP',)]))
     out.append((a0, [('NONE', ('pair', 'nat', ('ticket', 'string'))), ('PUSH_NAT', 1), ('DUPN', 2)]))
@@ -1090,7 +1195,7 @@ def run(ctx: lib.Ctx) -> None:
         nt = has(prog, ('SPLIT_TICKET', 'JOIN_TICKETS', 'READ_TICKET')) or (has(prog, ('TICKET',)) and has(prog, ('DUP', 'DUPN')))
         ctx.case((addr, repr(prog)), nontrivial=nt, kind=f'{kind}:{obs[0]}',
                  sample={'self': addr, 'program': prog_text([i for i in prog])[:400], 'result': to_json(obs)})
-        for name in ('TICKET', 'READ_TICKET', 'SPLIT_TICKET', 'JOIN_TICKETS', 'DUP', 'DUPN', 'IF_NONE', 'IF_CONS', 'CONS', 'ITER', 'MAP', 'SELF_IS'):
+        for name in ('TICKET', 'READ_TICKET', 'SPLIT_TICKET', 'JOIN_TICKETS', 'DUP', 'DUPN', 'IF_NONE', 'IF_CONS', 'CONS', 'ITER', 'MAP', 'SELF_IS', 'EMPTY_MAP', 'UPDATE', 'GET_AND_UPDATE', 'GET', 'MEM'):
             if has(prog, (name,)):
                 ctx.dist['uses ' + name] += 1
         if ref_run(addr, prog)[1].lenient:
